@@ -1,8 +1,8 @@
 SPECIFICATION Spec
 CONSTANTS
-  VALS = {"v1", "v2", "v3"}
+  VALS = {"v1", "v2", "v3", "v4", "v5"}
   FORD <- t_FORD
   TOKENS = {"t1", "t2"}
-  FIX = {"FROMTO", "WINDOW", "L26"}
+  FIX = {"FROMTO", "WINDOW", "L26", "L8", "L25S", "RPNIL"}
 POSTCONDITION Consumed
 CHECK_DEADLOCK FALSE
